@@ -49,6 +49,7 @@ def check(prop, tier, runs_override=None):
     tmpdir = runner.worker_tmp()
     # determinism spot check on every run of the check: re-execute a sample in this process
     sample = [r for r in results if r["index"] % 37 == 0][:24]
+    spot_mismatch = None
     runner.preload(eng, tier)
     for r in sample:
         if r.get("pyopt"):
@@ -57,10 +58,18 @@ def check(prop, tier, runs_override=None):
         else:
             again = runner.isolated(eng.run_index, seed, tier, r["index"], tmpdir)
         if again["digest"] != r["digest"]:
+            if any(x.get("violations") for x in results):
+                # the tree violates the property AND executes differently when the same run is repeated (answers that
+                # follow object addresses, say): the violations are reported - each must still replay in a fresh
+                # interpreter - and the mismatch is put on record
+                spot_mismatch = "run %d: %s vs %s" % (r["index"], r["digest"][:16], again["digest"][:16])
+                break
             return harness_error("non-deterministic run: property=%s seed=%d run=%d digests %s vs %s"
                                  % (prop, seed, r["index"], r["digest"][:16], again["digest"][:16]))
     coverage = eng.coverage_doc(results, tier)
-    coverage["determinism_spot_check"] = {"runs_re_executed": len(sample), "mismatches": 0}
+    coverage["determinism_spot_check"] = {"runs_re_executed": len(sample), "mismatches": 1 if spot_mismatch else 0}
+    if spot_mismatch:
+        coverage["determinism_spot_check"]["mismatch_on_a_violating_tree"] = spot_mismatch
     missing = [k for k in getattr(eng, "REQUIRED_FIRED", []) if not coverage.get("fault_kinds_fired", {}).get(k)]
     new, herr = runner.report(prop, tier, seed, eng, results, tmpdir)
     wall = time.time() - t0
